@@ -70,7 +70,7 @@ func runGated(c gatedCase) error {
 	if err != nil {
 		return err
 	}
-	defer func() { _ = closeWorld(w, c.NoConnClose) }()
+	defer func() { _ = closeWorld(w, c.NoConnClose); w.Release() }()
 	var h0 counter
 	start := func(id int, h *counter) error {
 		if c.UseDo {
